@@ -10,6 +10,7 @@ import (
 	"net/url"
 	"strconv"
 	"strings"
+	"time"
 
 	"github.com/quay/claircore"
 	"github.com/quay/claircore/updater/osv"
@@ -61,6 +62,7 @@ type osvSeverity struct {
 }
 type osvAdvisory struct {
 	ID, Summary string
+	Published   time.Time // zero = no "published" member
 	Withdrawn   string // "", "past", "future"
 	Severities  []osvSeverity
 	DB          string // raw database_specific ("" = absent)
@@ -235,7 +237,7 @@ func cvssRating(s osvSeverity) int {
 }
 
 func (g *gen) osvAdvisory(updEco string) osvAdvisory {
-	a := osvAdvisory{ID: g.r.Pick("GHSA-", "PYSEC-2023-", "GO-2022-", "RUSTSEC-2021-") + g.word(4, 6), Summary: g.text(5)}
+	a := osvAdvisory{ID: g.r.Pick("GHSA-", "PYSEC-2023-", "GO-2022-", "RUSTSEC-2021-") + g.word(4, 6), Summary: g.text(5), Published: g.date()}
 	switch g.r.Intn(8) {
 	case 0:
 		a.Withdrawn = "past"
@@ -308,7 +310,10 @@ func renderEvent(e osvEvent) map[string]string {
 }
 
 func renderAdvisory(a osvAdvisory) []byte {
-	doc := map[string]any{"schema_version": "1.3.1", "id": a.ID, "modified": "2023-05-01T10:00:00Z", "published": "2023-04-01T10:00:00Z", "details": "details"}
+	doc := map[string]any{"schema_version": "1.3.1", "id": a.ID, "modified": "2023-05-01T10:00:00Z", "details": "details"}
+	if !a.Published.IsZero() {
+		doc["published"] = a.Published.Format(time.RFC3339)
+	}
 	if a.Summary != "" {
 		doc["summary"] = a.Summary
 	}
@@ -398,7 +403,7 @@ func (l *line) osvAdvisory(a osvAdvisory) *line {
 	if a.Withdrawn == "past" {
 		w = 1
 	}
-	l.str(a.ID).str(a.Summary).n(w).n(len(a.Severities))
+	l.str(a.ID).str(a.Summary).str(issuedTok(a.Published)).n(w).n(len(a.Severities))
 	for _, s := range a.Severities {
 		l.str(s.Type).str(s.Score).n(s.Rating)
 	}
@@ -474,7 +479,8 @@ func osvWants(repoName string, a osvAdvisory, sevStr string, nsev claircore.Seve
 				return nil, nil, classes, false // Insert refuses these (error for the whole dump)
 			}
 			mk := func(fixed, rng string) want {
-				return want{ID: a.ID, Pkg: pkg, Fixed: fixed, Dist: "", Extra: fmt.Sprintf("kind=%s range=%s repo=%s sevstr=%q", kind, rng, repoName, sevStr), Sev: nsev}
+				return want{ID: a.ID, Pkg: pkg, Fixed: fixed, Dist: "", eco: af.Ecosystem, Sev: nsev,
+					Extra: fmt.Sprintf("kind=%s range=%s repo=%s sevstr=%q issued=%s desc=%q links=%q", kind, rng, repoName, sevStr, issuedTok(a.Published), a.Summary, strings.Join(a.Refs, " "))}
 			}
 			switch {
 			case r.Type == "SEMVER":
@@ -555,7 +561,27 @@ func osvExtra(v *claircore.Vulnerability) string {
 	if v.Repo != nil {
 		rn = v.Repo.Name
 	}
-	return fmt.Sprintf("kind=%s range=%s repo=%s sevstr=%q", kind, rangeStr(v.Range), rn, v.Severity)
+	hint := "?"
+	if v.Package != nil {
+		hint = v.Package.RepositoryHint
+	}
+	return fmt.Sprintf("kind=%s range=%s repo=%s sevstr=%q issued=%s desc=%q links=%q hint=%s", kind, rangeStr(v.Range), rn, v.Severity, issuedTok(v.Issued), v.Description, v.Links, hint)
+}
+
+// osvHints completes the expectations of one dump with the repository hint:
+// the package records are shared by name within a dump, and a record carries
+// the ecosystem of the affected entry it was created for (the first one).
+func osvHints(ws []want) []want {
+	first := map[string]string{}
+	out := make([]want, len(ws))
+	for i, w := range ws {
+		if _, ok := first[w.Pkg]; !ok {
+			first[w.Pkg] = w.eco
+		}
+		w.Extra += " hint=" + first[w.Pkg]
+		out[i] = w
+	}
+	return out
 }
 
 func runOsv(r *hx.Run, g *gen, cfg hx.Config) {
@@ -639,6 +665,7 @@ func osvScenario(r *hx.Run, p osvParser, repoName string, advs []osvAdvisory, ch
 		r.Fail("", fmt.Sprintf("osv Parse of well-formed advisories: %v; %s", err, clip([]byte(wit()))))
 		return vs, out
 	}
+	wants, known = osvHints(wants), osvHints(known)
 	if d := checkExact(wants, vs, osvExtra); d != "" {
 		// Classified only if the result is exactly what the listed findings predict for the
 		// ranges of their shapes (and the stated content everywhere else).
@@ -729,6 +756,19 @@ func osvWitnesses(r *hx.Run) {
 			r.KnownSeen("osv-last-affected-with-versions", `SEMVER events introduced 1.0.0, last_affected 1.1.0 with a versions list state [1.0.0, 1.1.1); Insert returns `+got)
 		default:
 			r.Fail("", "osv last_affected witness: returned "+got)
+		}
+	}
+	// 2b. regression (fixed c4dd53d8): one advisory for a package -> the package record carries the ecosystem as repository hint
+	{
+		a := osvAdvisory{ID: "PYSEC-hint", Affected: []osvAffected{{Ecosystem: "PyPI", Name: "requests", Ranges: []osvRange{{Type: "ECOSYSTEM",
+			Events: []osvEvent{{Introduced: zero}, {Fixed: v("2.31.0", 2, 31, 0)}}}}}}}
+		vs, _ := osvScenario(r, osv.ParserForC14("pypi"), "pypi", []osvAdvisory{a}, false)
+		if len(vs) != 1 || vs[0].Package == nil || vs[0].Package.RepositoryHint != "PyPI" {
+			hint := "?"
+			if len(vs) == 1 && vs[0].Package != nil {
+				hint = vs[0].Package.RepositoryHint
+			}
+			r.Fail("", fmt.Sprintf("osv: a dump with one PyPI advisory for requests returns %d vulnerabilities with Package.RepositoryHint %q (want 1 with \"PyPI\")", len(vs), hint))
 		}
 	}
 	// 3. ECOSYSTEM range of an ecosystem without encoder, two intervals -> one vulnerability with the last fixed version
